@@ -31,7 +31,7 @@ RULE = ('model cases (~92 %): global Pmin in [0,30] m (J1 override up to 110 m),
         'pressure_exponent}, J2 none; requested demand D in [0,2] incl. 0; elevation in [-5,500]. Sweep per junction: '
         'Pmin-1000 .. Preq+1000 with 0.01 m grids around both thresholds, both band edges +-1e-9, 40 interior points '
         'and 6 generated probe pressures; every interval with a change of q is bisected to 1e-9 m. '
-        'sim cases (~8 %): netgen networks (2-6 junctions, tanks, pumps, CV/closed pipes, patterns) in PDD mode with '
+        'sim cases (~16 %): netgen networks (2-6 junctions, tanks, pumps, CV/closed pipes, patterns) in PDD mode with '
         'generated global/per-junction parameters, one WNTRSimulator run. '
         'Non-trivial: model = D > 0 and (an effective exponent != 0.5 or an override present); sim = converged and '
         'some connected junction with D > 0 has Pmin < p < Preq. Distinct = SHA-1 of the case.')
@@ -326,6 +326,8 @@ def check_sim(case):
         if spec.get('pdd_controls'):
             from wntr.network.controls import Control, ControlAction
             tags.append('history:pressure_window_controls')
+            if any(c.get('pmin', 0) is None or c.get('preq', 0) is None for c in spec['pdd_controls']):
+                tags.append('history:pressure_window_override_withdrawn')
             n_ = 0
             for c in spec['pdd_controls']:
                 for key, attr in (('pmin', 'minimum_pressure'), ('preq', 'required_pressure')):
@@ -505,16 +507,36 @@ def sim_case(draw, tier='quick'):
         pc = []
         for _ in range(draw(st.integers(1, 2))):
             j = spec['junctions'][draw(st.integers(0, len(spec['junctions']) - 1))]
-            at = o['hyd'] * draw(st.integers(1, nsteps))
+            at = o['hyd'] * draw(st.integers(1, max(1, (nsteps + 1) // 2)))     # first half: rows remain to be judged
             pmin = draw(_sim_pmin)
-            which = draw(st.sampled_from(['both', 'both', 'pmin', 'preq']))
+            which = draw(st.sampled_from(['both', 'both', 'pmin', 'preq', 'withdraw', 'withdraw_pmin', 'withdraw_preq']))
+            if which.startswith('withdraw'):
+                # the override is taken back (attribute set to None = 'use the global option'): prefer a junction that has one
+                own = [x for x in spec['junctions'] if x.get('pmin') is not None or x.get('preq') is not None]
+                if own:
+                    j = own[draw(st.integers(0, len(own) - 1))]
+                else:
+                    j['preq'] = r4(o['pmin'] + draw(_sim_gap))      # ... or give the chosen one an own required pressure
             c = {'junction': j['name'], 'at': at}
             if which in ('both', 'pmin'):
                 c['pmin'] = pmin
             if which in ('both', 'preq'):
                 c['preq'] = r4(pmin + draw(_sim_gap))
+            if which in ('withdraw', 'withdraw_pmin'):
+                c['pmin'] = None
+            if which in ('withdraw', 'withdraw_preq'):
+                c['preq'] = None
             pc.append(c)
-        spec['pdd_controls'] = sorted(pc, key=lambda c: (c['at'], c['junction']))
+        pc = sorted(pc, key=lambda c: (c['at'], c['junction']))
+        # a one-sided withdrawal must leave a window at least as wide as the narrowest generated one; otherwise both
+        # ends are withdrawn (the global window is always valid)
+        for n_, c in enumerate(pc):
+            if c.get('pmin', 0) is None or c.get('preq', 0) is None:
+                jj = [x for x in spec['junctions'] if x['name'] == c['junction']][0]
+                a, b = _window_at(dict(spec, pdd_controls=pc[:n_ + 1]), jj, c['at'])
+                if not b - a >= 0.07 - 1e-9:
+                    c['pmin'] = c['preq'] = None
+        spec['pdd_controls'] = pc
     return {'kind': 'sim', 'spec': spec}
 
 
@@ -525,14 +547,16 @@ def _window_at(spec, j, t):
     b = o['preq'] if j.get('preq') is None else j['preq']
     for c in spec.get('pdd_controls', []):
         if c['junction'] == j['name'] and c['at'] <= t:
-            a = c.get('pmin', a)
-            b = c.get('preq', b)
+            if 'pmin' in c:
+                a = o['pmin'] if c['pmin'] is None else c['pmin']
+            if 'preq' in c:
+                b = o['preq'] if c['preq'] is None else c['preq']
     return a, b
 
 
 def strategy(tier='quick'):
     # one_of shrinks towards the first alternative (the cheap model-level case)
-    return st.integers(0, 24).flatmap(lambda z: sim_case(tier) if z >= 23 else model_case())
+    return st.integers(0, 24).flatmap(lambda z: sim_case(tier) if z >= 21 else model_case())
 
 
 def _mk(a, b, e, ja=None, jb=None, je=None, D=1.0):
